@@ -540,6 +540,22 @@ pub fn crash_sweep(a: &Args) -> Report {
       Guard::Panic(_) => c09_panic(&mut rep, "Server::eval", "bad-point", "eval panicked on an undecodable point".into(), json!({"verifiable": v})),
     }
   }
+  // structurally VALID but degenerate values: the identity as request point (plain and verifiable),
+  // a punctured tag, an unregistered tag
+  let identity = Point::from(&[0u8; 32][..]);
+  let mut punctured = server.clone();
+  let _ = punctured.puncture(1);
+  for (name, srv, p, md) in [("identity-point", &server, &identity, 0u8), ("identity-point-tag7", &server, &identity, 7),
+                             ("punctured-tag", &punctured, &blinded, 1), ("identity-point-punctured-tag", &punctured, &identity, 1),
+                             ("unregistered-tag", &server, &blinded, 200), ("identity-point-unregistered-tag", &server, &identity, 200)] {
+    for v in [false, true] {
+      rep.evaluations += 1;
+      rep.nontrivial(format!("eval:{name}:{v}"));
+      if guard(|| srv.eval(p, md, v).is_ok()).is_panic() {
+        c09_panic(&mut rep, "Server::eval", name, format!("Server::eval panicked ({name}, verifiable={v})"), json!({"case": name, "verifiable": v}));
+      }
+    }
+  }
   let good_ev = server.eval(&blinded, 0, true).expect("eval");
   let proof_bytes = good_ev.proof.as_ref().unwrap().serialize_to_bincode().unwrap();
   let mk_ev = |out: &Point, proof: bool| Evaluation {
@@ -551,6 +567,11 @@ pub fn crash_sweep(a: &Args) -> Report {
     ("bad-output-point", pk.clone(), blinded.clone(), mk_ev(&bad, true), 0),
     ("bad-input-point", pk.clone(), bad.clone(), mk_ev(&good_ev.output, true), 0),
     ("unregistered-tag", pk.clone(), blinded.clone(), mk_ev(&good_ev.output, true), 99),
+    ("identity-output", pk.clone(), blinded.clone(), mk_ev(&identity, true), 0),
+    ("identity-input", pk.clone(), identity.clone(), mk_ev(&good_ev.output, true), 0),
+    ("identity-input-and-output", pk.clone(), identity.clone(), mk_ev(&identity, true), 0),
+    ("output-equals-input", pk.clone(), blinded.clone(), mk_ev(&blinded, true), 0),
+    ("zero-scalars", pk.clone(), blinded.clone(), Evaluation { output: good_ev.output.clone(), proof: ProofDLEQ::load_from_bincode(&[0u8; 64]).ok() }, 0),
     ("missing-proof-unregistered-tag", pk.clone(), blinded.clone(), mk_ev(&good_ev.output, false), 99),
   ];
   for (name, k, inp, ev, md) in cases {
@@ -566,9 +587,13 @@ pub fn crash_sweep(a: &Args) -> Report {
   }
   // public key loaded from bincode with an undecodable base / tag point
   if let Ok(pkb) = pk.serialize_to_bincode() {
-    for (name, off) in [("bad-base-pk", 0usize), ("bad-tag-pk", 41usize)] {
+    for (name, off) in [("bad-base-pk", 0usize), ("bad-tag-pk", 41usize), ("identity-base-pk", 0), ("identity-tag-pk", 41)] {
       let mut c = pkb.clone();
-      c[off..off + 32].copy_from_slice(&bad_point_bytes());
+      if name.starts_with("identity") {
+        c[off..off + 32].copy_from_slice(&[0u8; 32]);
+      } else {
+        c[off..off + 32].copy_from_slice(&bad_point_bytes());
+      }
       rep.evaluations += 1;
       rep.nontrivial(format!("verify:{name}"));
       match guard(|| ServerPublicKey::load_from_bincode(&c).ok()) {
